@@ -333,6 +333,64 @@ Theorem C18_settled_pass :
 Proof. exact @settled_pass. Qed.
 Print Assumptions C18_settled_pass.
 
+(** The cache label is three-valued (absent | exactly "True" | any other value); the informers select on
+    exactly "True". A successful pass in which every source exists leaves the world [calm]: every source
+    and the target exist, carry the label with exactly that value (whatever they carried before: the pass
+    re-patches a key that is present with another value), and their kinds are watched by the template. *)
+Theorem C18_success_calms :
+  forall (code : Type) (render : code -> data -> N -> rres) (scope_of : N -> option bool) (iv_res iv_opt : N)
+         (w0 : world code) (ss : list (step code)) (t : tmpl code) (w' : world code) (r : pres),
+    let w := final render scope_of ns_escalation iv_res iv_opt w0 ss in
+    w_tmpl w = Some t -> t_del t = false -> pass render scope_of ns_escalation iv_res iv_opt w = (w', r) ->
+    p_err r = 0 -> (exists t', w_tmpl w' = Some t' /\ t_invalid t' = 0) ->
+    (forall k d, In (k, d) (target_writes (p_evs r)) -> forall s, In s (t_sources t) -> nkey scope_of (src_key (t_ns t) s) <> k) ->
+    (forall s, In s (t_sources t) -> lookup (nkey scope_of (src_key (t_ns t) s)) (w_store w') <> None) ->
+    calm render scope_of w'.
+Proof. exact (fun code render scope_of iv_res iv_opt w0 ss =>
+                @success_calms code render scope_of iv_res iv_opt (final render scope_of ns_escalation iv_res iv_opt w0 ss)). Qed.
+Print Assumptions C18_success_calms.
+
+Theorem C18_calm_labels :
+  forall (code : Type) (render : code -> data -> N -> rres) (scope_of : N -> option bool) (w : world code),
+    calm render scope_of w ->
+    exists t k o, w_tmpl w = Some t /\ lookup k (w_store w) = Some o /\ o_lbl o = LTrue /\
+      forall s, In s (t_sources t) -> exists os, lookup (nkey scope_of (src_key (t_ns t) s)) (w_store w) = Some os /\ o_lbl os = LTrue.
+Proof. exact @calm_labels. Qed.
+Print Assumptions C18_calm_labels.
+
+(** ... so a source-level step that does not enqueue the template cannot have changed anything the template
+    depends on: calm is preserved. *)
+Theorem C18_calm_quiet_step :
+  forall (code : Type) (render : code -> data -> N -> rres) (scope_of : N -> option bool) (iv_res iv_opt : N)
+         (w : world code) (s : step code) (w' : world code),
+    calm render scope_of w ->
+    (exists k d l, s = SPut k d l) \/ (exists k, s = SDel k) ->
+    do_step render scope_of ns_escalation iv_res iv_opt w s = (w', OEnq false) -> calm render scope_of w'.
+Proof. exact @calm_quiet_step. Qed.
+Print Assumptions C18_calm_quiet_step.
+
+(** quiescent_equals_render with a quiet suffix: any history, then a successful pass in which every source
+    exists, then any number of source creations / edits / deletions with the worker running a pass only when
+    a request is pending ([quiet_run]: it never found one). If no request is pending at the end, the target
+    equals the template rendered with the sources as they are at the end - i.e. a change that is not
+    propagated would have left a request in the queue. *)
+Theorem C18_quiescent_after_quiet_suffix :
+  forall (code : Type) (render : code -> data -> N -> rres) (scope_of : N -> option bool) (iv_res iv_opt : N)
+         (w0 : world code) (ss suffix : list (step code)) (t : tmpl code),
+    let wp := final render scope_of ns_escalation iv_res iv_opt w0 ss in
+    let r := snd (pass render scope_of ns_escalation iv_res iv_opt wp) in
+    let w1 := with_pending (fst (pass render scope_of ns_escalation iv_res iv_opt wp)) false in
+    w_tmpl wp = Some t -> t_del t = false -> p_err r = 0 -> (exists t', w_tmpl w1 = Some t' /\ t_invalid t' = 0) ->
+    (forall k d, In (k, d) (target_writes (p_evs r)) -> forall s, In s (t_sources t) -> nkey scope_of (src_key (t_ns t) s) <> k) ->
+    (forall s, In s (t_sources t) -> lookup (nkey scope_of (src_key (t_ns t) s)) (w_store w1) <> None) ->
+    quiet_run render scope_of iv_res iv_opt w1 suffix ->
+    let w := final render scope_of ns_escalation iv_res iv_opt w0 (ss ++ [SPass] ++ suffix) in
+    w_pending w = false ->
+    exists t' k d o, w_tmpl w = Some t' /\ expected render scope_of t' (w_store w) (w_env w) = Some (k, d) /\
+                     lookup k (w_store w) = Some o /\ o_data o = d /\ o_lbl o = LTrue.
+Proof. exact @quiescent_after_quiet_suffix. Qed.
+Print Assumptions C18_quiescent_after_quiet_suffix.
+
 (** Lifting: the observation a history makes at its last step is that step's result in the world the
     prefix leads to; so all clauses above speak about every step of every history. *)
 Theorem C18_history_observation :
@@ -364,7 +422,7 @@ Print Assumptions C18_monitor_rejects_v0.
     optional source on the way (so the optional-retry hypothesis is satisfiable too), and the settled
     state it reaches. *)
 Example C18_hypotheses_satisfiable :
-  let wp := final render_code scope_tbl ns_escalation 30 60 sample_world [SPass; SPut (1, 1, 1) [(1, 6)] false] in
+  let wp := final render_code scope_tbl ns_escalation 30 60 sample_world [SPass; SPut (1, 1, 1) [(1, 6)] LAbsent] in
   let w := final render_code scope_tbl ns_escalation 30 60 sample_world sample_history in
   let r := snd (pass render_code scope_tbl ns_escalation 30 60 wp) in
   (exists t, w_tmpl wp = Some t /\ t_del t = false /\
